@@ -254,6 +254,12 @@ OpIntended(st, op) ==
 
 OpSuccs(st, op) == IF op.k = "abandon" THEN RemoveTowerSuccessors(st, op.t) ELSE {OpIntended(st, op)}
 
+\* C18 talks about the registration receipt that counts (reported, reloaded) and about abandon removing all of them;
+\* whether superseded receipts of a tower that is still known are kept is left open: conformance compares stores modulo
+\* those rows.
+RegsView(db) == {r \in db.regs : r.t \notin {x.t : x \in db.towers} \/ \A q \in RegsOf(db, r.t) : q.expiry <= r.expiry}
+Norm(st) == [st EXCEPT !.db.regs = RegsView(st.db)]
+
 \* what the call may answer ({} = it answers nothing that C18 talks about)
 OpResults(st, op) ==
     CASE op.k = "register" -> RegResults(st, op.t, op.slots, op.expiry)
